@@ -23,7 +23,9 @@ def is_pow2_const(t):
 
 
 class Prover:
-    def __init__(self, interp, facts, use_J=True, extra_axioms=(), max_depth=5, footer_align=16):
+    def __init__(self, interp, facts, use_J=True, extra_axioms=(), max_depth=5, footer_align=16, level=0):
+        self.level = level
+        self._busy = False
         self.I = interp
         self.facts = set(facts)
         self.use_J = use_J
@@ -89,6 +91,25 @@ class Prover:
         if ('footer', t) in self.ax:
             return True
         return False
+
+    def excluded_preds(self, prefix):
+        """predecessors of merge `prefix` that the current facts rule out: a fact is(PHI, V) about another
+        value merged at the same point whose alternative from that predecessor is statically a different variant"""
+        out = set()
+        for f in self.facts:
+            if f[0] == 'is' and len(f) == 3:
+                t = f[1]
+                if t[0] == 'app' and t[1] == 'try_branch':
+                    want = {'Continue': ('Some', 'Ok'), 'Break': ('None', 'Err')}.get(f[2])
+                    t = t[2]
+                else:
+                    want = (f[2],)
+                if t[0] == 'phi' and t[1][:2] == prefix and want:
+                    for p, x in t[2]:
+                        vs = self.I.variants_in(x) if self.I is not None else {None}
+                        if None not in vs and not (vs & set(want)):
+                            out.add(p)
+        return out
 
     # ------------------------------------------------------------------ divisibility among powers of two
     def divides(self, d, e, depth=0):
@@ -199,16 +220,19 @@ class Prover:
                 return True        # J2
         if self.use_J and self.is_footer_ptr(t) and self.divides(d, C(self.footer_align)):
             return True            # J1
-        if k == 'phi':
+        if k == 'phi' and self.level < 4:
             pf = self.I.phi_facts.get(t[1][:2], {}) if self.I else {}
+            skip = self.excluded_preds(t[1][:2])
             for p, x in t[2]:
-                sub = Prover(self.I, self.facts | set(pf.get(p, ())), self.use_J, self.ax, self.max_depth, self.footer_align)
+                if p in skip:
+                    continue
+                sub = Prover(self.I, self.facts | set(pf.get(p, ())), self.use_J, self.ax, self.max_depth, self.footer_align, self.level + 1)
                 if not sub.aligned(x, d, depth + 1):
                     return False
             return True
         if k == 'ite':
-            a = Prover(self.I, self.facts | self.I.truth(None, t[1], True), self.use_J, self.ax, self.max_depth, self.footer_align)
-            b = Prover(self.I, self.facts | self.I.truth(None, t[1], False), self.use_J, self.ax, self.max_depth, self.footer_align)
+            a = Prover(self.I, self.facts | self.I.truth(None, t[1], True), self.use_J, self.ax, self.max_depth, self.footer_align, self.level + 1)
+            b = Prover(self.I, self.facts | self.I.truth(None, t[1], False), self.use_J, self.ax, self.max_depth, self.footer_align, self.level + 1)
             return a.aligned(t[2], d, depth + 1) and b.aligned(t[3], d, depth + 1)
         return False
 
@@ -280,7 +304,11 @@ class Prover:
         # facts using that first pass (a wrapped term equals the difference once y <= x is known)
         self._les = collect(None)
         self._memo = {}
-        second = collect(self.norm)
+        self._busy = True
+        try:
+            second = collect(self.norm)
+        finally:
+            self._busy = False
         self._les = self._les + [x for x in second if x not in self._les]
         self._memo = {}
         return self._les
@@ -385,13 +413,16 @@ class Prover:
             y = from_lin(rest, -c)
             if self.aligned(y, k[3]) and self.le(y, k[2], depth + 1):
                 return True
-        # (6) phi atoms: prove for every alternative
+        # (6) phi atoms: prove for every alternative (bounded nesting; not while normalising the facts)
         for k, v in d.items():
-            if k[0] == 'phi':
+            if k[0] == 'phi' and self.level < 3 and not self._busy:
                 pf = self.I.phi_facts.get(k[1][:2], {}) if self.I else {}
                 ok = True
+                skip = self.excluded_preds(k[1][:2])
                 for p, x in k[2]:
-                    sub = Prover(self.I, self.facts | set(pf.get(p, ())), self.use_J, self.ax, self.max_depth, self.footer_align)
+                    if p in skip:
+                        continue
+                    sub = Prover(self.I, self.facts | set(pf.get(p, ())), self.use_J, self.ax, self.max_depth, self.footer_align, self.level + 1)
                     nd = dict(d)
                     del nd[k]
                     xd, xc = lin(sub.norm(x))
